@@ -3,6 +3,8 @@
 Exhaustive small scope: all 1- and 2-byte inputs (thorough: all 65536 pairs), all 3-byte strings over an 8-byte class
 alphabet, every BMP code point as text (thorough), each x requested mode and x Micro/QR versions for availability.
 Oracle: three-valued model predicate over the encoded bytes (qrref.model) + the mode indicator read from the symbol."""
+import contextlib
+import io
 import itertools
 
 from qrref import tables as T, model as Mo
@@ -61,9 +63,61 @@ def gen_cases(tier):
     # odd / even lengths with requested kanji / hanzi (length 0..5)
     for n in range(1, 6):
         yield ('runs', n)
+    # the other routes to the same request: content as list / tuple / (content, mode) parts, the command line tool (--mode, --seq)
+    for i in range(len(ROUTE_CONTENTS)):
+        yield ('routes', i)
+    # histories: the same content requested with every ordered pair (thorough: triple) of modes in one process
+    for i in range(len(ROUTE_CONTENTS)):
+        yield ('history', i)
 
 
-ENTRY = {'make': segno.make, 'make_qr': segno.make_qr, 'make_micro': segno.make_micro}
+def _cli_entry(seq):
+    def run(content, mode=None, version=None):
+        from segno import cli
+        argv = ([] if mode is None else ['--mode', mode]) + ([] if version is None else ['--version', str(version)]) + (['--seq', '--symbol-count', '1'] if seq else [])
+        text = content.decode('latin-1') if isinstance(content, bytes) else content
+        with contextlib.redirect_stdout(io.StringIO()), contextlib.redirect_stderr(io.StringIO()):
+            try:
+                cfg = cli.parse(argv + ['--', text])
+            except SystemExit:
+                raise ValueError('command line not accepted')
+        res = cli.make_code(cfg)
+        if seq:
+            if len(res) != 1:
+                raise AssertionError('one small message became %d symbols' % len(res))
+            return res[0]
+        return res
+    return run
+
+
+def _form_entry(form):
+    """the same request through the other documented call forms of the content argument"""
+    def run(content, mode=None, version=None):
+        kw = {} if version is None else {'version': version}
+        const = None if mode is None else C.INT_OF_MODE[mode]
+        if form == 'list':
+            return segno.make([content], mode=mode, **kw)
+        if form == 'tuple':
+            return segno.make((content,), mode=mode, **kw)
+        if form == 'part-none':           # (content, None): no mode for the part, the requested mode of the call applies
+            return segno.make([(content, None)], mode=mode, **kw)
+        if form == 'part-none-enc':
+            return segno.make([(content, None, None)], mode=mode, **kw)
+        if form == 'part-mode':           # the mode requested for the part
+            return segno.make([(content, const)], **kw)
+        if form == 'part-mode-both':
+            return segno.make([(content, const)], mode=mode, **kw)
+        raise ValueError(form)
+    return run
+
+
+ENTRY = {'make': segno.make, 'make_qr': segno.make_qr, 'make_micro': segno.make_micro, 'cli': _cli_entry(False), 'cli-seq': _cli_entry(True),
+         'list': _form_entry('list'), 'tuple': _form_entry('tuple'), 'part-none': _form_entry('part-none'), 'part-none-enc': _form_entry('part-none-enc'),
+         'part-mode': _form_entry('part-mode'), 'part-mode-both': _form_entry('part-mode-both')}
+FORMS = ('list', 'tuple', 'part-none', 'part-none-enc', 'part-mode', 'part-mode-both')
+# contents of every mode class, incl. lower-case letters (alphanumeric must be refused, not folded) and mixed classes
+ROUTE_CONTENTS = ['1', '123', '0042', 'A', 'ABC', 'HELLO WORLD', 'A1', 'abc', 'Abc', 'a1', 'hello world', '\u70b9\u8317', '\u70b9', 'h\xe9llo',
+                  '\u4e66\u8bfb', '$%*+-./:', 'a;b', b'123', b'ABC', b'abc', b'\x93\x5f\xe4\xaa', b'\xb0\xa1', b'\x00\xff']
 
 
 def judge(content, data, mode, version, acc, entry='make'):
@@ -80,6 +134,7 @@ def judge(content, data, mode, version, acc, entry='make'):
     except Exception as e:
         qr, exc = None, e
     # model
+    given, mode = mode, (mode.lower() if isinstance(mode, str) else mode)      # (the command line accepts any letter case)
     if data is None:
         must = 'refuse'
         allowed = set()
@@ -125,7 +180,7 @@ def judge(content, data, mode, version, acc, entry='make'):
         return
     if qr.mode is not None:
         acc.add('modes_seen', (mode is None, qr.mode))
-    if (entry == 'make_micro') != bool(qr.is_micro) and entry != 'make':
+    if (entry == 'make_micro') != bool(qr.is_micro) and entry in ('make_qr', 'make_micro', 'cli', 'cli-seq'):
         acc.violation('wrong-symbology/%s' % entry, '%s(%r) returned %s' % (entry, content, qr.designator), case)
     if must == 'refuse':
         acc.violation('accepted-unrepresentable/%s' % mode, 'make(%r, mode=%r, version=%r) returned a %s symbol in mode %r; the bytes %r are not '
@@ -140,6 +195,15 @@ def judge(content, data, mode, version, acc, entry='make'):
         acc.violation('reported-mode', 'QRCode.mode=%r but the symbol holds mode indicator(s) %r' % (qr.mode, seg_modes), case)
     elif rep.payload != data and not rep.problems:
         acc.violation('payload', 'payload %r != %r in mode %r' % (rep.payload, data, qr.mode), case)
+
+
+def expected(content, mode):
+    if isinstance(content, bytes):
+        return content
+    try:
+        return content.encode('gb2312') if mode is not None and mode.lower() == 'hanzi' else Mo.expected_bytes(content)[0]
+    except UnicodeError:
+        return None
 
 
 def all_modes(content, data, acc, versions=(None,), entries=False):
@@ -199,16 +263,38 @@ def run_case(case, acc):
         for unit in (b'\x93', b'\x93\x5f', b'\xb0\xa1', b'1', b'A'):
             d = (unit * 6)[:n]
             all_modes(d, d, acc, versions=(None, 'M3', 1))
+    elif kind == 'routes':
+        content = ROUTE_CONTENTS[case[1]]
+        data = expected(content, None)
+        for m in (None,) + MODES:
+            d = expected(content, m)
+            for e in FORMS:
+                if m is None and e.startswith('part-mode'):
+                    continue
+                for v in (None, 'M2', 1):
+                    judge(content, d, m, v, acc, entry=e)
+            if isinstance(content, str) and not content.startswith('-'):
+                for e in ('cli', 'cli-seq'):
+                    judge(content, d, m, None, acc, entry=e)
+                    if m is not None:
+                        judge(content, d, m.upper(), None, acc, entry=e)
+    elif kind == 'history':
+        content = ROUTE_CONTENTS[case[1]]
+        seqs = list(itertools.permutations((None,) + MODES, 2)) + [(m, m) for m in (None,) + MODES]
+        for seq in seqs:
+            for m in seq:
+                judge(content, expected(content, m), m, None, acc)
+        for a, b in itertools.permutations(range(len(ROUTE_CONTENTS)), 2):
+            if a == case[1] and isinstance(ROUTE_CONTENTS[b], type(content)):
+                # two different contents alternating (state keyed by the previous call)
+                other = ROUTE_CONTENTS[b]
+                for m in (None, 'byte'):
+                    judge(other, expected(other, m), m, None, acc)
+                    judge(content, expected(content, None), None, None, acc)
     elif kind == 'one':
         content, mode, version = case[1], case[2], case[3]
         entry = case[4] if len(case) > 4 else 'make'
-        data = content if isinstance(content, bytes) else None
-        if data is None:
-            try:
-                data = content.encode('gb2312') if mode == 'hanzi' else Mo.expected_bytes(content)[0]
-            except UnicodeError:
-                data = None
-        judge(content, data, mode, version, acc, entry=entry)
+        judge(content, expected(content, mode), mode, version, acc, entry=entry)
     else:
         raise ValueError(kind)
 
